@@ -241,6 +241,12 @@ def run(cx):
     from rules.C02 import project_with_tol_rules
     project_with_tol_rules(cx)
     plane_intersection_distance_rule(cx)
+    # a rebuilt curve merges vertices by Euclidean distance (else its length depends on the frame); the crossing search treats exactly axis-aligned
+    # probes with the closed slab test (else a crossing through a vertex is found in one frame and not in another) - rules shared with C13 / C06
+    from rules.C13 import curve3_dedup_rule
+    from rules.C06 import cast_ray_rules
+    curve3_dedup_rule(cx)
+    cast_ray_rules(cx)
 
 
 def find_same_iter(tgt, x):
